@@ -7,6 +7,11 @@ HERE = os.path.dirname(os.path.dirname(os.path.abspath(__file__)))
 
 # id -> (engine, technique, level text, level note, design ref)
 CHECKS = {
+    "C08": ("XH", "CrossHair symbolic execution of the real CHText code vs a list-of-(char,color) reference model; z3 per path, spaces exhausted",
+            "bounded model checking: per canonical chunk layout, slice bounds are unbounded symbolic ints and the path tree is exhausted (all ints covered); "
+            "construction routes / join / format / 2-operation sequences are exhausted over stated small layouts; counterexamples replayed on CPython",
+            "CrossHair's int/str/list models are trusted for passes (alarms are replayed concretely); chunk contents are concrete letters (code inspects only lengths/colors)",
+            "DESIGN.md 3/C08"),
     "C20": ("P2S+XH", "AST->z3 symbolic execution of the real kernels (mathematical ints), unsat per path; CrossHair for the str front end",
             "bounded model checking with an explicit bound: all 2**128 uuid values and all 22-character strings over all code points are covered "
             "by z3 (unsat on every path of the real source translated at run time); other lengths up to the stated bound; counterexamples replayed on the real functions",
